@@ -5,13 +5,73 @@ import os
 VERIF = os.path.dirname(os.path.dirname(os.path.abspath(__file__)))
 BASE = "cd /repo && /venv/bin/python -m pytest -ra -q -p no:cacheprovider --timeout=900 --continue-on-collection-errors --no-cov"
 
+T = 'Trusted: Lean 4.33 kernel (axioms of every theorem audited ⊆ {propext, Classical.choice, Quot.sound}; no sorry/native_decide); translator; correspondence harness; CPython int semantics as stated in PyPrims.lean. '
+
+def C(technique, text, note, ref, modules):
+    return dict(technique=technique, text=text, note=T + note, ref=ref)
+
+CORR = "hand-written executable Lean model tied to the code by a differential correspondence run (same operation lines on the real code and on the compiled model) with an independent oracle"
 CHECKS = {
-    "C05": dict(
-        technique="Lean 4 theorems (shunting-yard compiler correctness, stack machine = tree evaluator) over a model tied to the source by a translator (tables, operator bodies) and a differential correspondence run",
-        text="Kernel-checked theorems about the Lean model of the tokenizer/parser/evaluator; precedence table, operator sets and operator bodies are regenerated from _parser.py on every run and proved equal to the model's; the algorithmic model is tied to the code by exhaustive-small and seeded differential runs with an independent grammar oracle.",
-        note="Trusted: Lean kernel; translator; correspondence harness; CPython int semantics as stated in PyPrims.lean. Negative exponents (float path) and non-ASCII input are not modelled.",
-        ref="DESIGN.md §4 C05",
-    ),
+    "C01": C("Lean 4 proof (invariant by induction over the context queue: monotone bindings => soundness w.r.t. Conforms) + " + CORR,
+             "Theorems about the Lean model of DLTypeContext (add / assert_context / _assert_tensor_shape / get_expected_shape); the model is tied to the code by seeded and corpus differential runs (25k contexts quick), and an independent Python oracle (first-occurrence assignment, reference evaluator) judges every accepted context.",
+             "Negative exponents (float path) are not modelled. The soundness theorem is about the model; equality of model and code is sampled, not proved.", "DESIGN.md §4 C01", []),
+    "C02": C("Lean 4 proof (completeness w.r.t. Conforms; trace theorem: body once, result handed through) + " + CORR,
+             "Trace theorem about the wrapper model (returned => body ran exactly once after the argument checks and its value is what the caller gets) and completeness of the context model; tied by differential runs through generated dltyped functions (all call styles, defaulted parameters of unhashable types) with identity of arguments/result observed.",
+             "inspect.Signature.bind/apply_defaults is not modelled (the harness hands the model the bound arguments).", "DESIGN.md §4 C02", []),
+    "C03": C("Lean 4 proof (iff characterisation of check(): rank, dtype, aligned literal axes; order and truth of the reported error) + " + CORR,
+             "check_ok_iff / rank_error_first / dtype_error_second / shape_error_is_true over the Lean model of TensorTypeBase.check, for every annotation the shape parser can produce; exhaustive-small differential run (all shape strings <=4 dims with the marker in every position x ranks 0..5) judged by an independent oracle.",
+             "", "DESIGN.md §4 C03", []),
+    "C04": C("Lean 4 proof by kernel evaluation (decide +kernel) over the complete, regenerated class x dtype acceptance table",
+             "The acceptance table is re-observed from the real classes on every run for every dtype numpy(+ml_dtypes)/torch/jax can construct and written into Generated/DtypeTables.lean; table_is_documented, membership_is_check and superset_relations are decided by the kernel over the whole table (a finite domain enumerated completely).",
+             "Completeness of the dtype enumeration for the installed libraries; bfloat16 outside torch and non-native byte orders are outside the claim.", "DESIGN.md §4 C04", []),
+    "C05": C("Lean 4 proof (shunting-yard compiler correctness; stack machine = tree evaluator) over a model tied to the source by a translator (precedence table, operator sets, operator bodies) + " + CORR,
+             "Kernel-checked theorems about the Lean model of the tokenizer/parser/evaluator; precedence table, operator sets and operator bodies are regenerated from _parser.py on every run and proved equal to the model's; exhaustive-small and seeded differential runs with an independent recursive-descent grammar oracle (Spec/Grammar.lean).",
+             "Negative exponents (float path) and non-ASCII input are not modelled.", "DESIGN.md §4 C05", []),
+    "C06": C("Lean 4 proof (partial: error classes of the parser model; negation of the full statement with kernel-checked witnesses) + exhaustive differential run against an independent grammar recogniser",
+             "The full statement (accept => grammatical) is FALSE of the current code (known finding F6, witnesses proved in Lean); the check enumerates every string of <=4 tokens over a 21-symbol alphabet plus mutations, compares code and faithful model, judges acceptance against the Lean recogniser, and USES every accepted string in a call.",
+             "F6 is an open known finding: inside its region (model accepts a string outside the grammar) the code must still equal the model.", "DESIGN.md §4 C06, §5 F6", []),
+    "C07": C("Lean 4 proof (decision logic on the wrapper's event trace) + " + CORR,
+             "args_rejected_no_body / return_rejected_body_once / return_hint_not_in_args_phase over the wrapper model; differential runs with a body that logs its side effects and a logged assert_context, one violation placed per argument position / tuple element / return.",
+             "", "DESIGN.md §4 C07", []),
+    "C08": C("Lean 4 proof (error-class table by decide over the regenerated _errors.py; report lemmas of check()) + " + CORR + " judging every report's fields",
+             "Every error class derives from DLTypeError <= TypeError (generated table); reports (tensor name, axis, expected, actual) of every rejection are judged by an independent oracle from both the exception attributes and the message; the full statement 'nothing but DLTypeErrors' is false (known finding F7, Lean witness).",
+             "F7 (evaluation / zip errors are not converted) is an open known finding.", "DESIGN.md §4 C08, §5 F7", []),
+    "C09": C("Lean 4 proof (state machine over histories: calls leave the state unchanged, verdict = fresh verdict; shared-state audit regenerated from the AST) + " + CORR + " on histories and threads",
+             "call_leaves_state / verdict_is_fresh / calls_do_not_matter over the history model; state_components_modelled proves the list of non-local stores, caches and module-level mutables found in the source equal to the list the model accounts for; random histories (shared aliases, providers, nesting) and 8-thread runs compared with fresh verdicts; provider mappings and annotation objects snapshotted.",
+             "Bytecode-level preemption is not exhibited by the model; the audit's classification of each store is an argument in a comment, not a proof.", "DESIGN.md §4 C09", []),
+    "C10": C("Lean 4 proof (from_hint on unions; None-skip lemmas of add) + " + CORR,
+             "optional_union / general_union_refused / none_skipped / none_rejected / tensor_same_as_plain / check_ignores_optional; exhaustive None/ok/bad patterns over parameter, tuple-element, field and return positions through functions, NamedTuples and dataclasses.",
+             "", "DESIGN.md §4 C10", []),
+    "C11": C("Lean 4 proof (flattening lemma for tuple hints of any length) + " + CORR,
+             "tuple_hint_is_tuple / tuple_elements_queued (exactly the annotated positions, in order, with their index) / display_names; exhaustive tuple hints of length 1..4 with annotated/plain mixes as parameter and return.",
+             "", "DESIGN.md §4 C11", []),
+    "C12": C("Lean 4 proof (provider resolution and its place in the call; history lemma) + " + CORR + " on histories with provider updates",
+             "provider_resolution / self_needs_method / provider_scope_is_initial / provider_update_takes_effect; histories with fresh and long-lived provider dicts changed between calls, non-protocol objects, 'self' with and without a method.",
+             "", "DESIGN.md §4 C12", []),
+    "C13": C("Lean 4 proof (decision table by decide over the regenerated decorator guards) + exhaustive subprocess matrix",
+             "guards_are_modelled / env_is_modelled tie the three decorators' `enabled` default and first guard, the env prefix/fields and the logger branches to the source; disabled_means_identity decides the table; 23 fresh interpreters cover DLTYPE_DISABLE x DLTYPE_DEBUG_MODE x logging x decorator x enabled with a 24-call verdict corpus.",
+             "Environment parsing is pydantic-settings' (observed, not modelled).", "DESIGN.md §4 C13", []),
+    "C14": C("Lean 4 proof (incremental = batch, by induction over the field list) + " + CORR + " in all four forms",
+             "incremental_eq_batch: the pydantic fold (check; add; assert per field) equals one batch run; every generated field list is presented as function, dataclass, NamedTuple and pydantic model and the four verdicts/reports must coincide.",
+             "", "DESIGN.md §4 C14", []),
+    "C15": C("Lean 4 proof (congruence of the checker under equal shapes and equal acceptance; library independence of the shared categories by decide +kernel over the table) + " + CORR + " under all 3^n library assignments",
+             "runEntries_congr + shared_categories_library_independent; every generated context is re-run under all assignments of numpy/torch/jax to its arrays.",
+             "", "DESIGN.md §4 C15", []),
+    "C16": C("Lean 4 proof (partial: call-transparency trace theorems) + observation against an undecorated twin",
+             "body_exception_propagates / bodyRaised_only_from_body / no_hints_identity (+ C02b); name/doc/signature, argument passing for every parameter kind/default/binding, dataclass and NamedTuple behaviour (eq, repr, isinstance, immutability, pickle) are observed against undecorated twins (3.3k cases quick).",
+             "The metadata / equality / pickling clauses are CPython, dataclass and NamedTuple behaviour: observed only, not proved.", "DESIGN.md §4 C16", []),
+    "C17": C("Lean 4 proof (partial: per-validation freshness, fold order via C14) + " + CORR + " on pydantic models",
+             "validation_starts_empty + C14; PYD protocol: generated models (base types np.ndarray / np.ndarray[..] / npt.NDArray[..] / torch / jax, optional and plain fields, validate_assignment) with constructions in shuffled keyword order and assignments; clean public data observed.",
+             "pydantic-core's scheduling of validators is trusted. F13 (assignment under validate_assignment) is an open known finding.", "DESIGN.md §4 C17, §5 F13", []),
+    "C18": C("Lean 4 proof (partial: printer model with folding; negation of the full statement with a kernel-checked witness) + " + CORR + " against Python's own evaluation",
+             "The printer model (Symbolic.lean) is compared with str(Shape[...]) on exhaustive-small and random trees; parse(print s) is compared with Python's evaluation of the operator expression; the full statement is false (known finding F12: no parentheses are inserted; negative folded literals).",
+             "F12/F12n are open known findings; outside their region the printed string must evaluate to Python's value.", "DESIGN.md §4 C18, §5 F12", []),
+    "C19": C("Lean 4 proof (partial: eager transparency, scripting guard) + observation of generated torch modules under trace / script / compile against undecorated twins",
+             "eager_transparent, scripting_returns_function_itself; 8 generated modules x {eager, jit.trace, jit.script, torch.compile(eager)} x conforming / non-conforming inputs.",
+             "TorchScript, the tracer and dynamo are not modelled at all: capture modes are observed only.", "DESIGN.md §4 C19", []),
+    "C20": C("Lean 4 proof (decision tables by decide over the regenerated selection logic, all 8 environments) + 8 fresh interpreters",
+             "import_outcome / supported_types / exports / universal_dtypes_are_union over the if/elif chains of _dtypes.py and __init__.py and the DTYPES expressions of _universal_tensors.py rendered by the translator; each of the 8 availability combinations is realised in a fresh interpreter and compared.",
+             "jax without numpy is not realisable and collapses to 'jax absent'.", "DESIGN.md §4 C20", []),
 }
 
 NOT_YET = {}
